@@ -43,40 +43,45 @@ same = lambda a, b: np.asarray(a, dtype=float).tobytes() == np.asarray(b, dtype=
 # (1) Integrator(with_altitude=False) under call histories
 
 def history_failures(h):
-    """every row produced in 2D mode: VD == 0 exactly, altitude bit-equal to the one most recently supplied"""
+    """every row produced in 2D mode: VD == 0 exactly, altitude bit-equal to the one most recently supplied.
+    Returns None if the implementation raised (that is C02's business: nothing was produced)."""
     h = H.normalise(dict(h, alt=False))
     d = H.make_data(h)
     real = H.run_real(h, d, deep=False)
     if not real['ok']:
-        return [f"a legal call history raised {real['error']}"]
+        return None
     fails = []
     alts = [d['pvas'][0][ALT]]            # specification: Props/C13.v k_alt_run
     a = alts[0]
+    supplied = {float(a)}
 
     def rows_ok(vals, want, what):
         vals = np.atleast_2d(vals)
         if not np.all(vals[:, VD] == 0.0):
             fails.append(f"{what}: vertical velocity {vals[:, VD].tolist()} is not exactly zero")
-        elif not same(vals[:, ALT], want):
-            fails.append(f"{what}: altitude {vals[:, ALT].tolist()} != most recently supplied {list(want)}")
+        elif len(vals) == len(want):
+            if not same(vals[:, ALT], want):
+                fails.append(f"{what}: altitude {vals[:, ALT].tolist()} != most recently supplied {list(want)}")
+        elif not all(float(x) in supplied for x in vals[:, ALT]):
+            # row count is C02's business; without alignment only membership can be checked
+            fails.append(f"{what}: altitude {vals[:, ALT].tolist()} is not one of the supplied altitudes {sorted(supplied)}")
 
     for j, (o, ob) in enumerate(zip(h['ops'], real['obs'])):
         if o[0] == 'I':
             alts += [a] * o[1]
-            rows_ok(ob[2], alts[-(o[1] + 1):], f"op {j} integrate({o[1]}) returned rows")
+            m = len(ob[2])
+            rows_ok(ob[2], alts[-m:] if 0 < m <= len(alts) else [], f"op {j} integrate({o[1]}) returned rows")
         elif o[0] == 'P':
             rows_ok(ob[2], [a], f"op {j} predict")
         elif o[0] == 'G':
             rows_ok(ob[2], [alts[-1]], f"op {j} get_pva")
         elif o[0] == 'S':
             a = d['pvas'][o[1]][ALT]
+            supplied.add(float(a))
             alts[-1] = a
         if len(fails) >= 3:
             break
-    if len(real['values']) != len(alts):
-        fails.append(f"{len(real['values'])} rows, expected {len(alts)}")
-    else:
-        rows_ok(real['values'], alts, "final trajectory")
+    rows_ok(real['values'], alts, "final trajectory")
     return fails
 
 
@@ -91,6 +96,9 @@ def check_histories(r, rng, n, exhaustive=False):
             hists += list(H.exhaustive_histories(cap, False, 4))
     for h in hists:
         f = history_failures(h)
+        if f is None:
+            dist['implementation raised (see C02)'] += 1
+            f = []
         nsup = sum(1 for o in h['ops'] if o[0] == 'S')
         nint = sum(o[1] for o in h['ops'] if o[0] == 'I')
         dist[f"set_pva={min(nsup, 3)}"] += 1
@@ -260,7 +268,7 @@ def generated_shapes(r):
                     correct2d={'lat', 'lon', 'alt', 'VN', 'VE', 'VD', 'roll', 'pitch', 'heading'},
                     kstep2d_fresh={'alt', 'VD'}, kstep3d_fresh={'alt', 'VD'})
         for name, outs in want.items():
-            e = gen.TRACES.get(('C13Gen', name))
+            e = gen.TRACES.get(('C13Gen', 'c13_' + name))
             if e is None:
                 r.broken('translator', f"C13Gen.{name}", "not traced")
                 continue
@@ -314,8 +322,8 @@ def check(r):
         "trajectory_sd is sqrt(diag(T P T^T)) with T = transform_to_output (read off filters._compute_sd / "
         "_compute_feedforward_result); Props/C13.v proves the zero rows of T and the zero quadratic form",
     ]
-    r.generate(['NumbaIntegrate', 'C13Gen'])
-    generated_shapes(r)
+    if r.generate(['NumbaIntegrate', 'C13Gen']):
+        generated_shapes(r)
     r.prove('Props/C13.v')
     numeric(r, random.Random(r.seed + 13), r.tier == 'quick')
     if r.tier == 'thorough':
